@@ -120,7 +120,7 @@ TABLE = {
     r"^client::conn::transport::TransportExt::with_optional_tls\|panic": ("by-construction", "builder-time assertion (configuration), not on the request path"),
     r"^client::Client::get::\{closure#0\}\|result-unwrap\|unwrap\|<=Builder::body$": ("by-construction", "Request::builder() with only a uri and method GET: building cannot fail for a Uri value"),
     r"^service::host::set_host_header::\{closure#0\}\|option-unwrap\|expect\|authority implies host\|<=Uri::host$": ("guarded", "reached only after uri.host() was checked to be present", _host_guard),
-    r"^service::host::set_host_header::\{closure#0\}\|result-unwrap\|expect\|authority implies host\|<=\?$": ("by-construction", "every byte http::Uri accepts in a host (and a decimal port) is a legal header-value byte"),
+    r"^service::host::set_host_header::\{closure#0\}\|result-unwrap\|expect\|uri host is valid header value\|<=\?$": ("by-construction", "every byte http::Uri accepts in a host (and a decimal port) is a legal header-value byte"),
     r"^service::http::http1::authority_form\|result-unwrap\|expect\|authority is valid\|<=Uri::from_parts$": ("by-construction", "Uri::from_parts with only an authority taken from a valid Uri is authority-form"),
     r"^service::http::http1::origin_form\|result-unwrap\|expect\|path is valid uri\|<=Uri::from_parts$": ("by-construction", "Uri::from_parts with only the path_and_query of a valid Uri is origin-form"),
     r"^service::http::http1::origin_form\|panic\|panic\|assertion failed: Uri::default\(\)": ("constant-input", "debug_assert on a constant expression"),
